@@ -58,6 +58,7 @@ def check(run):
         C05.route(R)
         C05.track(R)
     wiring(R)
+    one_context(R, 'C06.wiring')
     from .common import stale_refs
     stale_refs(R, 'C06.wiring')
     raw(R)
@@ -163,6 +164,37 @@ def parse_ext(R, RID='C06.parse'):
              func=f, node=r_, construct='extension token strip')
     R.ob(RID, 'returns (token, options)', len(rets) == 1 and isinstance(rets[0].value, ast.Tuple) and len(rets[0].value.elts) == 2,
          'parse_extension returns %s' % [U(r.value) for r in rets], func=f, node=None, construct='parse_extension return')
+
+
+def one_context(R, RID):
+    """The peer has one inflater / deflater per direction: every zlib (de)compressor the Deflate class creates is the value
+    of its one field, and compress() / decompress() run through that field (no second object with a history of its own)."""
+    from .common import canon
+    n_sites = 0
+    for kind, field, ops in (('zlib.compressobj', '_compressobj', {'zcomp.compress', 'zcomp.flush'}),
+                             ('zlib.decompressobj', '_decompressobj', {'zdecomp.decompress'})):
+        for fq, fi in sorted(R.prog.funcs.items()):
+            if fi.cls is None or fi.cls.qual != DF:
+                continue
+            g = R.cfg(fq)
+            for n in g.live_nodes():
+                for c in n.calls:
+                    ts = R.types.call_targets(c, g.ctx)
+                    if any(t.kind == 'ext' and t.name == kind for t in ts):
+                        n_sites += 1
+                        ok = n.kind == 'stmt' and isinstance(n.ast, ast.Assign) and n.ast.value is c and all(
+                            U(t_) == 'self.' + field for t_ in n.ast.targets)
+                        R.ob(RID, '%s() is kept in self.%s' % (kind, field), ok,
+                             '`%s` creates a second %s object next to self.%s: it has a history of its own, the peer has one '
+                             'context per direction and cannot follow both' % (n.text()[:70], kind, field), func=fi, node=c,
+                             construct='%s outside self.%s in %s' % (kind, field, fq))
+                    if any(t.kind == 'ext' and t.name in ops for t in ts) and isinstance(c.func, ast.Attribute):
+                        n_sites += 1
+                        rc = canon(R, g, n, c.func.value)
+                        R.ob(RID, '%s runs on self.%s' % (U(c.func)[:40], field), rc == 'self.' + field,
+                             '`%s` runs on %s, not on the one context self.%s' % (U(c)[:60], rc, field), func=fi, node=c,
+                             construct='%s receiver in %s' % (c.func.attr, fq))
+    need(n_sites >= 5, 'zlib context creation / use sites not found (%d)' % n_sites)
 
 
 def _field_of_param(R, param):
